@@ -31,6 +31,7 @@ def run(ctx):
     r2(chk, fx, t, paths)
     r3(chk, fx, t, paths)
     r4(chk, fx)
+    r5_other_content(chk, fx, t, paths)
 
 
 # ---------------------------------------------------------------------------------------------------------------------------------
@@ -233,7 +234,12 @@ def r3(chk, fx, t, paths):
     for which in ("Candidate", "Installed"):
         rn = "<" + AGENT + "::policies::fetch::Maybe<" + AGENT + "::policies::" + which + "> as netconf::message::ReadXml>::read_xml"
         ps = paths if which == "Candidate" else A.Interp(fx, crates=(AGENT,), max_paths=6000).explore(rn)
-        ns = [(p, a) for p in ps for a in p.assigns("name")]
+        # the assignment that stores the policy's name: recognised by what is stored (a policies::Name), not by the variable's name
+        ns = [(p, a) for p in ps for a in p.assigns() if "Name::new" in A.vstr(a[2])
+              or any(x[0] == "adt" and x[1].endswith("policies::Name") for x in A.walk_value(a[2]))]
+        if not ns and which == "Candidate" and any(p.calls("ReadXml::read_xml", "BorrowedReadXml::borrowed_read_xml") for p in ps):
+            n += 1      # delegated to another reader: C16/R5 reports that
+            continue
         for p, a in ns[:1]:
             n += 1
             ch, root = call_chain(a[2])
@@ -267,3 +273,35 @@ def r4(chk, fx):
     ok = "ifletEntry::Vacant(entry)=HashMap::entry(map,Clone::clone(name))" in txt and "detectedduplicatepolicy-statement" in txt.replace("'", "") or \
         ("Entry::Vacant(entry)" in txt and "returnResult::Err(" in txt)
     chk.instance("C16/R4", "duplicate policy names are an error (Entry::Vacant or Err)", name[0], None, holds=ok, key="C16/R4 duplicate-names")
+
+
+# ---------------------------------------------------------------------------------------------
+ALLOWED_CONTENT = {"name", "then", "reject"}
+
+
+def r5_other_content(chk, fx, t, paths):
+    """'.. and ones with other content are never selected': the candidate reader goes on after an element only if it is <name>, <then>
+    or (inside <then>) <reject>; anything else — a term, a second action, foreign elements — ends in the catch-all error.  Decided on
+    the explored element iterations that continue (or leave the loop normally): the element names the path assumed.  A scan delegated
+    to another type's reader cannot satisfy this (the readers of installed statements accept terms) and is reported as such."""
+    import re
+    fn = "<Maybe<Candidate>>::read_xml"
+    n = 0
+    for p in paths:
+        if not is_event_iteration(p) or p.end not in ("iter-end",):
+            continue
+        names = sorted({m for k, v in p.assume.items() if v is True and "local_name" in k
+                        for m in re.findall(r"(?:b\"|')([A-Za-z][A-Za-z0-9:_-]*)(?:\"|')", k)})
+        if not names:
+            continue
+        n += 1
+        bad = [x for x in names if x not in ALLOWED_CONTENT]
+        chk.instance("C16/R5", "%s goes on after <%s> only" % (fn, "/".join(names)), t["def"], loc_of(t.get("sp")), holds=not bad,
+                     key="C16/R5 %s accepts-other-content %s" % (fn, ",".join(bad)),
+                     detail=None if not bad else "a statement containing <%s> can still be selected as managed" % bad[0])
+    deleg = sorted({T.short(c[1], 2) for p in paths for c in p.calls("ReadXml::read_xml", "BorrowedReadXml::borrowed_read_xml")})
+    if not deleg:
+        chk.floor("C16/R5 continuing element iterations", n, 2)
+    chk.instance("C16/R5", "%s scans the statement's content itself" % fn, t["def"], loc_of(t.get("sp")), holds=not deleg,
+                 key="C16/R5 %s content-scan-delegated" % fn,
+                 detail=None if not deleg else "the content is read by %s: what that reader accepts (terms, ...) is accepted for a candidate too" % deleg)
